@@ -280,6 +280,19 @@ var globals = map[string]string{
 		Get(k) { return this.GetDefault(k, false) }
 		Getter_Dyn() { return .Twice(21) }
 		CallClass(x) { return .Twice(x) }
+		Worker()
+			{
+			// a block that uses this but none of the method's variables (it shares no slots with the method)
+			return {
+				for i in ..60
+					{
+					.n++
+					.Set("w" $ (i % 7), i)
+					.Get("w" $ ((i + 3) % 7))
+					.ob.Add(i)
+					}
+				}
+			}
 		}`,
 	"C43InstOp": `function (op, c, t, i, errs)
 		{
@@ -631,6 +644,27 @@ var scenarios = []*scenario{
 		Suneido.Delete(#c43shared)
 		return ob
 		}`},
+	{name: "instance-through-this-block", src: `function (nt, opsList, errs)
+		{
+		c = new C43Class
+		wg = WaitGroup()
+		for t in ..nt
+			wg.Thread(c.Worker()) // the instance reaches the other threads only as the this of the block
+		r = wg.Wait(150)
+		if r isnt true
+			errs.Add("HANG " $ r)
+		return Object(c.N(), c.Ob().Size())
+		}`, check: func(c *caseCtx, res Value) {
+		ob, ok := res.(*SuObject)
+		if !ok || ob.ListSize() != 2 {
+			c.violate("C43/scenario-result", map[string]any{"result": fmt.Sprint(res)})
+			return
+		}
+		if n, sz := ToInt(ob.ListGet(0)), ToInt(ob.ListGet(1)); n != 60*c.nt || sz != 60*c.nt {
+			c.violate("C43/lost-update/instance-through-this-block", map[string]any{"increments": n, "adds": sz, "want": 60 * c.nt})
+		}
+		c.rep.Count("conserved_increments", 60*c.nt)
+	}},
 	{name: "copy-on-write", src: `function (nt, opsList, errs)
 		{
 		ob = Object()
